@@ -88,11 +88,18 @@ func (g *Global) String() string {
 
 // Type returns the type of the global variable.
 func (g *Global) Type() types.Type {
-	// Cache type if not present; recompute it if the address space was set
-	// after the type was cached (as done by ir.NewGlobal).
-	if g.Typ == nil || g.Typ.AddrSpace != g.AddrSpace {
+	// Cache type if not present.
+	if g.Typ == nil {
 		g.Typ = types.NewPointer(g.ContentType)
 		g.Typ.AddrSpace = g.AddrSpace
+	}
+	if g.Typ.AddrSpace != g.AddrSpace {
+		// The address space was set after the type was cached (as done by users
+		// of ir.NewGlobal). The cached type is left as is, since Type may be
+		// called by concurrent printers.
+		typ := types.NewPointer(g.ContentType)
+		typ.AddrSpace = g.AddrSpace
+		return typ
 	}
 	return g.Typ
 }
